@@ -29,7 +29,7 @@ func ropeOf(v value) rope {
 			return rope{}
 		}
 		return rope{[]value{x}}
-	case symInt, symStr, *jsonTok, hashPart, timeTok:
+	case symInt, symStr, *jsonTok, hashPart, timeTok, periodTok:
 		return rope{[]value{x}}
 	case opaqueBytesV:
 		return x.r
@@ -111,6 +111,7 @@ const (
 	segTok
 	segHash
 	segTime
+	segPeriod
 )
 
 type seg struct {
@@ -232,6 +233,8 @@ func (r rope) segments() []seg {
 			out = append(out, seg{kind: segHash, v: x})
 		case timeTok:
 			out = append(out, seg{kind: segTime, v: x})
+		case periodTok:
+			out = append(out, seg{kind: segPeriod, v: x})
 		default:
 			panic(unsupported{fmt.Sprintf("rope part %T", p)})
 		}
@@ -320,6 +323,11 @@ func ropeEq(a, b rope) value {
 			r = mkAnd(r, boolTerm(tokEq(x.v.(*jsonTok), y.v.(*jsonTok))))
 		case segHash:
 			r = mkAnd(r, boolTerm(ropeEq(x.v.(hashPart).inner, y.v.(hashPart).inner)))
+		case segPeriod:
+			px, py := x.v.(periodTok), y.v.(periodTok)
+			for i := 0; i < 6; i++ {
+				r = mkAnd(r, boolTerm(binop(token.EQL, types.Typ[types.Int16], px.fields[i], py.fields[i])))
+			}
 		case segTime:
 			tx, ty := x.v.(timeTok), y.v.(timeTok)
 			if tx.layout != ty.layout {
